@@ -52,6 +52,12 @@ def gen_cases(rng, tier, scale):
     UPV = ['{{#each arr as |x i|}}{{#with @root.o}}{{../i}}{{../x}}{{/with}}{{/each}}', '{{#each (lookup this "arr") as |row|}}{{#with @root.o}}<{{../row}}>{{/with}}{{/each}}',
            '{{#with (lookup this "o") as |w|}}{{#each @root.arr}}{{../w.k}}{{/each}}{{/with}}', '{{> pu}}',
            '{{#each o as |val key|}}{{#if true}}{{#with @root.arr}}{{../../key}}={{../../val}}{{/with}}{{/if}}{{/each}}']
+    # an inner block parameter shadows an outer one of the same name: the inner element's (existing, falsy) field is read
+    for ks, (tpl, d) in enumerate([('{{#each groups as |item|}}{{#each item.members as |item|}}<{{item.nick}}>{{/each}}{{/each}}', {'groups': [{'members': [{'nick': ''}, {'nick': None}]}]}),
+                                   ('{{#with o as |v|}}{{#with v.c as |v|}}{{v.c}}{{/with}}{{/with}}', {'o': {'c': {'c': 0}}}),
+                                   ('{{#each l as |x i|}}{{#each x as |i|}}{{i.z}}{{/each}}{{/each}}', {'l': [[{'z': False}]]})]):
+        for st in (0, 1):
+            cases.append(rcase(f'sh{ks}s{st}', tpl, d, pre=[f'strict {st}'], entry=0, kind='exist', pair=('sh', ks), strict=st, tags=['shadowed-block-param']))
     kk = 0
     for v in FALSY + ['s']:
         for pos in UPV:
